@@ -556,6 +556,26 @@ def m_slice_iter_next(ex, st, callee, args, dty, m):
     return mk_some(dty, Ref(c, p + (("i", u64(i)),)))
 
 
+# ---------------------------------------------------------------- vec![a, b, ...] lowering: Box<[T; N]>::new_uninit + write through the raw pointer + box_assume_init_into_vec_unsafe
+@model(r"Box::<\[(.*); (\d+)\]>::new_uninit$")
+def m_box_new_uninit(ex, st, callee, args, dty, m):
+    slot = Agg("struct", "MaybeDangling", [Opaque("uninit!%d" % next(ex.fresh_counter), "[%s; %s]" % (m.group(1), m.group(2)))])
+    mu = Agg("union", "MaybeUninit", [UNIT, Agg("struct", "ManuallyDrop", [slot])])
+    return Agg("struct", "BoxUninit", [Agg("struct", "Unique", [Ref(Cell(mu), (), True)])])
+
+
+@model(r"(?:std|alloc)::boxed::box_assume_init_into_vec_unsafe::<(.*), (\d+)>$")
+def m_box_into_vec(ex, st, callee, args, dty, m):
+    b = args[0]
+    if not (isinstance(b, Agg) and b.name == "BoxUninit"):
+        return NotImplemented
+    mu = deref(ex, b.fields[0].fields[0])
+    arr = mu.fields[1].fields[0].fields[0]
+    if isinstance(arr, (Seq, Bytes)):
+        return ex.copy_value(arr)
+    return NotImplemented
+
+
 # ---------------------------------------------------------------- Vec building
 @model(r"Vec::<(.*)>::new$|Vec::<(.*)>::with_capacity$|<Vec<(.*)> as Default>::default$")
 def m_vec_new(ex, st, callee, args, dty, m):
@@ -585,6 +605,34 @@ def m_vec_remove(ex, st, callee, args, dty, m):
         return v.items.pop(k)
     alts = [(idx.bv == k, ("__thunk__", take, (r, k))) for k in range(n)]
     alts.append((z3.UGE(idx.bv, n), PathEnd("panic", "Vec::remove index out of bounds (len %d)" % n)))
+    return ("__fork__", alts)
+
+
+@model(r"Vec::<(.*)>::swap_remove$")
+def m_vec_swap_remove(ex, st, callee, args, dty, m):
+    r, idx = args
+    v = deref(ex, r)
+    if not isinstance(v, Seq) or not isinstance(idx, I):
+        return NotImplemented
+    n = len(v.items)
+
+    def take(ex_, st_, arg):
+        ref, k = arg
+        seq = deref(ex_, ref)
+        last = seq.items.pop()
+        if k == len(seq.items):
+            return last
+        out = seq.items[k]
+        seq.items[k] = last
+        return out
+    i = z3.simplify(idx.bv)
+    if z3.is_bv_value(i):
+        k = i.as_long()
+        if k >= n:
+            return PathEnd("panic", "Vec::swap_remove index %d out of bounds (len %d)" % (k, n))
+        return take(ex, st, (r, k))
+    alts = [(idx.bv == k, ("__thunk__", take, (r, k))) for k in range(n)]
+    alts.append((z3.UGE(idx.bv, n), PathEnd("panic", "Vec::swap_remove index out of bounds (len %d)" % n)))
     return ("__fork__", alts)
 
 
@@ -857,6 +905,16 @@ def m_from_primitive(ex, st, callee, args, dty, m):
     return ("__fork__", [(valid, mk_some(dty, ev)), (z3.Not(valid), mk_none(dty))])
 
 
+@model(r"Vec::<(.*)>::extend_from_slice$")
+def m_vec_extend_from_slice_seq(ex, st, callee, args, dty, m):
+    v = deref(ex, args[0])
+    o = deref(ex, args[1])
+    if isinstance(v, Seq) and isinstance(o, Seq):
+        v.items.extend(ex.copy_value(x) for x in o.items)
+        return UNIT
+    return NotImplemented
+
+
 @model(r"Vec::<(.*)>::append$")
 def m_vec_append(ex, st, callee, args, dty, m):
     v = deref(ex, args[0])
@@ -1023,6 +1081,32 @@ def m_iter_adaptor(ex, st, callee, args, dty, m):
         return res
     return iter_driver(ex, kind, items, args[1], dty)
 
+
+
+@model(r"<(?:std::ops::|core::ops::)?Range<(usize|u64|u32)> as Iterator>::(for_each|all|any|position|find)::<.*>$")
+def m_range_adaptor(ex, st, callee, args, dty, m):
+    rng = deref(ex, args[0]) if isinstance(args[0], Ref) else args[0]
+    if not (isinstance(rng, Agg) and "Range" in rng.name and len(rng.fields) >= 2):
+        return NotImplemented
+    a, b = rng.fields[0], rng.fields[1]
+    if not (isinstance(a, I) and isinstance(b, I) and is_concrete(a) and is_concrete(b)):
+        return NotImplemented
+    lo, hi = as_int(a), as_int(b)
+    if hi - lo > 64:
+        return NotImplemented
+    kind = m.group(2)
+    vals = [const_int(i, m.group(1)) for i in range(lo, max(lo, hi))]
+    rng.fields[0] = const_int(max(lo, hi), m.group(1))
+    if kind == "find":
+        res = iter_driver(ex, "find", [Ref(Cell(x), ()) for x in vals], args[1], dty)
+        if isinstance(res, tuple) and res[0] == "__inline__":
+            body = res[1]
+            for i in range(len(vals)):
+                pb = body.blocks.get("bbP%d" % i)
+                if pb is not None:
+                    pb.stmts[0] = ("assign", ("local", "_0"), ("variant", "Option::Some", [("copy", ("deref", ("local", "_%d" % (i + 2))))]))
+        return res
+    return iter_driver(ex, kind, vals, args[1], dty)
 
 
 # ---------------------------------------------------------------- filter adaptor (lazy: each next() searches on from the current position)
